@@ -330,8 +330,11 @@ def legacy_groups(gids):
     return out
 
 
-def e2e_user_order(ck, tw, sky, gids, expand):
-    cors = [mkcorr(sky, k, g, 0.002 * k, 0.0005 * (k % 2), 10.0 * k) for k, g in enumerate(gids)]
+def e2e_user_order(ck, tw, sky, gids, expand, labels=None):
+    # the canonical group numbers may be mapped to arbitrary hashable user labels, including falsy but valid ones
+    # (0, '', False): a label means "no group" only when it is None
+    lab = (lambda g: g) if not labels else (lambda g: None if g is None else labels.get(g, g))
+    cors = [mkcorr(sky, k, lab(g), 0.002 * k, 0.0005 * (k % 2), 10.0 * k) for k, g in enumerate(gids)]
     mt = make_matcher()
     try:
         tw.align_wcs(cors, match=mt, enforce_user_order=True, expand_refcat=expand, fitgeom='rscale', nclip=0)
@@ -648,11 +651,13 @@ def _run(ck, queue):
             ck.discard('group-id pattern with a single group (NotEnoughCatalogs)')
             continue
         expand = bool(t % 2)
-        res = e2e_user_order(ck, tw, sky, gids, expand)
+        labels = [None, {1: 0, 2: '', 3: 7}, {1: 'a', 2: False, 3: (0,)}][t % 3]
+        ck.count('e2e_group_labels', 'canonical numbers' if labels is None else 'mapped incl. falsy')
+        res = e2e_user_order(ck, tw, sky, gids, expand, labels)
         ck.search_evaluations += 1
         ck.count('e2e_user_order', 'n=%d groups=%d' % (len(gids), len(model_groups(gids))))
         rec = {'call': 'align_wcs(correctors, match=<scripted>, enforce_user_order=True, expand_refcat=%s)' % expand,
-               'group_id of the input correctors, in list order': gids, 'impl': res,
+               'group_id of the input correctors, in list order': gids, 'labels (canonical -> user label)': repr(labels), 'impl': res,
                'expected order of groups (input positions)': model_groups(gids)}
         ok = 'error' not in res and res['order'] == model_groups(gids)
         if 'error' in res:
